@@ -138,6 +138,11 @@ def static_part(prop):
             obs += eff.fr_state()
         elif fam == "FR-ID":
             obs += eff.fr_id()
+        elif fam.startswith("PRE-STUB"):
+            from static.prestub import PreStub
+
+            want = fam.split(":", 1)[1].split(",") if ":" in fam else [""]
+            obs += [o for o in PreStub(prog).check("Traph") if any(w in o["id"] for w in want)]
     return obs
 
 
